@@ -107,7 +107,8 @@ impl Op {
     /// `false` where the documentation says the precondition is the caller's responsibility and
     /// is *not* enforced by constraints (then an accepted out-of-domain statement proves nothing)
     pub fn domain_enforced(&self) -> bool {
-        !matches!(self, Op::MsmBounded(_))
+        // (x/y_coordinate of the foreign identity: unspecified, nothing is promised either way)
+        !matches!(self, Op::MsmBounded(_) | Op::Coords)
     }
 
     /// Reference semantics. `None` = the input is outside the documented domain of the operation
